@@ -58,9 +58,27 @@ def gen_cases(rng, tier, scale):
                 kind = (i + k) % 7
                 cases.append({'line': case_line(f'b{i}e{k}', t, d, p, e, (kind + 2) * 1000000 + k), 'kind': 'fault', 'grp': 200000 + i, 'k': k,
                               'nw': nw, 'full': r['out'], 'tags': ['error-kind'], 'tpl': t})
+    # a writer that accepts only a few bytes per call (a pipe, a socket) loses nothing — whatever way a helper hands its text
+    # over: `out.write`, `write!` with arguments, or `write!` with a bare literal
+    LIT = 'literal-0123456789'
+    for j, (t, exp) in enumerate([('{{*sethelper "lit" "f:"}}a{{lit}}b{{lit 1}}c', 'a' + LIT + 'b' + LIT + 'c'),
+                                  ('{{*sethelper "lit" "f:"}}{{#each l}}{{lit}};{{/each}}', (LIT + ';') * 2),
+                                  ('{{*sethelper "w" "w:"}}[{{w s}}]{{dump 1}}', '[héllo wörld]dump(-:v:-:u1;;bti;-)')]):
+        for e in (2, 3, 6, 7):
+            for fa in (-2, -3, -6, -18, -19):
+                cid = f'sw{j}e{e}f{-fa}'
+                ops = ['probes', 'esc 1']
+                if e in (2, 3):
+                    ops += [f'regs {x("main")} {x(t)}', f'r {e} {x("main")} {jtok({"l": [1, 2], "s": "héllo wörld"})} {fa}']
+                else:
+                    ops += [f'rt {e} {x(t)} {jtok({"l": [1, 2], "s": "héllo wörld"})} {fa}']
+                cases.append({'line': f'{cid} ' + ' ; '.join(ops), 'kind': 'short', 'exp': exp, 'tags': ['short-writer'], 'tpl': t})
     return cases
 
 def oracle(c, io, mo):
+    if c['kind'] == 'short':
+        r = res_of(io)
+        return None if (r['kind'] == 'ok' and r['out'] == c['exp']) else f'a short-writing writer must receive everything: expected {c["exp"]!r}, got {r.get("out", r.get("reason"))!r}'
     if c['kind'] != 'fault':
         return None
     r = res_of(io)
